@@ -6,6 +6,7 @@ from sqlparse import tokens as T
 import props.C02 as C02
 
 RULE = ('inputs: corpus, g2 fragments biased to ( ) [ ] CASE END IF "END IF" FOR "END LOOP" BEGIN in arbitrary (also unbalanced) interleavings, grammar scripts and blocks; '
+        'every dictionary word (and the multi-word END/loop keywords of the lexer) as a would-be opener/closer against each real opener/closer; each kind nested in 25..70 levels of each other kind and alternating kinds; '
         'spans of the six classes compared with an independent stack matcher over the flattened leaves; non-trivial = distinct input with at least one opener or closer')
 ASSUMPTIONS = C02.ASSUMPTIONS
 PARTIAL = ['that what align_comments appends is exactly whitespace + one Comment group is oracle-checked; matching refinement and preservation of the six classes by all later passes are theorems']
@@ -103,9 +104,49 @@ def oracle(ctx, s):
             return
 
 
+# --- red-team hardening -----------------------------------------------------------------------------------------------------------
+PAIRS = [('[', ']'), ('(', ')'), ('case', 'end'), ('if', 'end if'), ('for', 'end loop'), ('begin', 'end')]
+EXTRA_WORDS = ['END WHILE', 'END FOR', 'END CASE', 'END REPEAT', 'END  LOOP', 'END\nIF', 'ENDIF', 'ELSIF', 'ELSE IF', 'LOOP', 'WHILE', 'REPEAT', 'UNTIL', 'DO', 'FOREACH', 'FOR EACH ROW',
+               'BEGIN TRANSACTION', 'BEGIN WORK', 'START', 'DECLARE', 'THEN', 'WHEN', 'ELSE', '{', '}', '<', '>', '((', '))']
+
+
+def vocabulary_inputs(ctx):
+    """exactly the listed tokens open and close: every dictionary word (half of them per seed in the quick tier) as a would-be opener in front of each
+    real closer, and as a would-be closer after each real opener"""
+    import props.C18 as C18
+    words = C18.all_dictionary_words()
+    if ctx.quick():
+        words = [w for i, w in enumerate(words) if (i + ctx.seed) % 2 == 0]
+    for w in words + EXTRA_WORDS:
+        yield '%s a end; %s b end if; %s c end loop; ( %s d ); [ %s ]' % (w, w, w, w, w.lower())
+        yield 'case a %s; if b %s; for c %s; begin d %s; ( e %s; [ f %s' % (w, w, w, w, w, w)
+        yield 'begin case a %s if b %s end for x %s end loop %s end' % (w, w, w, w)
+
+
+def mixed_nesting_inputs(ctx):
+    """each kind inside 25 … 70 levels of each other kind (the later pass has to descend through that many groups of the earlier kind, and the
+    earlier kind sits inside unmatched material of the later one), and alternating kinds"""
+    depths = ctx.n((25, 41, 70), (9, 17, 25, 33, 41, 57, 70, 90))
+    for ao, ac in PAIRS:
+        for bo, bc in PAIRS:
+            if (ao, ac) == (bo, bc):
+                continue
+            for d in depths:
+                yield 'x ' + (ao + ' ') * d + bo + ' y ' + bc + (' ' + ac) * d
+    for d in depths:
+        seq = [PAIRS[i % len(PAIRS)] for i in range(d)]
+        yield ' '.join(o for o, _ in seq) + ' z ' + ' '.join(c for _, c in reversed(seq))
+        seq = [PAIRS[(i * 5 + 1) % len(PAIRS)] for i in range(d)]
+        yield ' '.join(o for o, _ in seq) + ' z ' + ' '.join(c for _, c in reversed(seq))
+
+
 def run(ctx):
     rng = ctx.rng
     ins = [c['input'] for c in streams.corpus('C09')]
+    extra = list(vocabulary_inputs(ctx)) + list(mixed_nesting_inputs(ctx))
+    ctx.count('vocabulary/mixed-nesting inputs', len(extra))
+    for s in extra:
+        oracle(ctx, s)
     for _ in range(ctx.n(8000, 100000)):
         n = rng.randint(1, 22)
         ins.append(''.join(rng.choice(BIAS) + (' ' if rng.random() < 0.7 else '') for _ in range(n)))
@@ -120,7 +161,7 @@ def run(ctx):
         oracle(ctx, s)
     ctx.samples += [short(s, 80) for s in ins[:3]]
     if ctx.model.available and hasattr(streams, 's_tree'):
-        streams.s_tree(ctx, ins[: ctx.n(2500, 30000)])
+        streams.s_tree(ctx, ins[: ctx.n(2500, 30000)] + extra[:: ctx.n(4, 1)])
     else:
         ctx.notes.append('model driver unavailable: correspondence streams skipped')
 
